@@ -14,8 +14,8 @@ missed=[s for s,m in metas.items() if 'issed' in m['caught_by'].get(m['property'
 text=f'''
 ### 14.8 Self-validation with independently written breaking changes (seeded/)
 
-{n} changes (one aimed at each of the 19 properties, a second one for C02-C05, C07-C09, C11-C13, C15, C16 and a third one for
-C01, C02, C04, C07, C10, C18, C19) were written by
+{n} changes (one aimed at each of the 19 properties, a second one for C02-C05, C07-C09, C11-C13, C15, C16, a third one for
+C01, C02, C04, C07, C10, C18, C19 and a fourth-round one for C03, C05, C09, C11, C12, C15, C16) were written by
 fresh sub-agents that were given only the text of one property and a scratch worktree of /repo under /tmp (nothing from
 /verif); each was asked for a change that compiles, keeps the 268 pinned tests green and needs something specific to
 manifest, with a demonstration that fails with the change and passes without it. Every change was re-confirmed by
@@ -23,7 +23,7 @@ manifest, with a demonstration that fails with the change and passes without it.
 stored as `seeded/<id>/{{patch.diff, seed_demo.rs (or .sh), README.md, meta.json}}`; the worktrees and their build output
 were removed afterwards. To run the checks against a change `tools/run_seed.sh <id> <checks>` applies the patch to /repo
 (`git apply`), runs `./check`, and undoes it (`git checkout -- .`); nothing of this was ever committed to /repo. No
-request was refused by the permission system or a safety layer, by a sub-agent or by me. Nine later agents (second round: C01, C06, C10, C14, C17, C18, C19; third round: C14, C17) came back with the same change as an
+request was refused by the permission system or a safety layer, by a sub-agent or by me. Eleven later agents (second round: C01, C06, C10, C14, C17, C18, C19; third round: C14, C17; fourth round: C08, C13) came back with the same change as an
 earlier one (for C06: the change already stored for C17): not stored twice. The third round's prompt added one sentence asking
 for a less obvious place than the first function that comes to mind, which produced changes in lib.rs orchestration code.
 
@@ -76,6 +76,16 @@ What the misses taught (and what was changed):
 * **C07** (second miss) did not judge an output that was byte-identical to the input - exactly the case in which a
   shortcut can skip the strip policy - and every generated file was improvable: unchanged outputs are judged too, and a
   third of the cases get a second stage (the first stage's output under another strip policy).
+* **C05** (third miss) had one size per layout in its corpus: sizes around the Adam7 special cases were added.
+* **C09** (second miss) did not generate standard input (a stated limitation): added, incl. inputs that are a fixed
+  point of the same options, which is where the early-return arm of `optimize()` matters.
+* **C11** (second miss) attached only small random profiles: a third are now large and highly compressible (what the
+  size guess of the profile extraction cannot inflate).
+* **C12** (second miss) ran `--pretend` alone: `--pretend` with `--dir` / `--out` are configurations now, the snapshot
+  lists every file below the working directory, the quick tier runs all 42 configurations, and the model knows that
+  the directory named by `--dir` is created even then (which the statement exempts and the unchanged code does).
+* **C15** saw a dropped key only through the model: the literal clause "the key is rounded the same way" is now an
+  oracle clause.
 * **C13** ran its expiry sweep on files without metadata, and the strict decoder did not check the layout of
   bKGD / sBIT / hIST against colour type, depth and palette (C02: "every structural constraint of the specification that
   the input satisfies"): a third of the deadline cases now carry such chunks under a keeping policy and the decoder
